@@ -222,6 +222,9 @@ def judge(rec):
                 exp = L.render(("err", orc[1]))
                 if body != exp:
                     probs.append(("oracle", "arguments after the failed call: expected %s" % exp))
+    nul = L.format_unexplained_nul(rec["case"], body)
+    if nul:
+        probs.append(("oracle", nul))
     if f.startswith("@") and body.startswith("err") and cls != "arity":
         probs.append(("oracle", "expected an arity error (the call is outside the documented arity), got a different error"))
     m = rec["model"]
@@ -339,8 +342,49 @@ def _run(ctx, quick, broken, exe, janet, workdir):
         if arity.get(f, (0, 0))[0] >= 1 and ("@" + f) not in have0:
             ar_cases.append(("@" + f, []))
     cases += ar_cases
+    # ---- item-length boundary family of the formatters: one directive rendered to 253 … 258 bytes (MAX_ITEM = 256) or to the
+    # longest rendering its kind can reach; expected: the exact rendering below 256 bytes, an error from 256 on
+    bd_first = len(cases)
+    bd_cases = Gen(ctx.rng.fork("c17-format-boundary")).boundary_cases((400 if quick else 6000) * (3 if broken else 1))
+    cases += bd_cases
     ctx.say("running %d cases (%d corpus) on janet(asan), model driver and python oracle" % (len(cases), ncorpus))
     recs, crashes = evaluate(ctx, janet, exe, cases, workdir, "main")
+    # ---- correspondence of the item-step mirror (Lib/FormatC `formatbvItem` / `bufferFormatItem`, constants and operator from
+    # the current pp.c): for every single-directive member of the family, python gives the length of the complete rendering,
+    # the mirror says panic / number of bytes appended, the implementation must do the same
+    item_info = {"compared": 0, "lengths": {}, "diffs": 0}
+    if exe:
+        singles = [(r, L.format_single_item_length(r["case"])) for r in recs[bd_first:bd_first + len(bd_cases)]]
+        singles = [(r, n) for r, n in singles if n is not None and r["impl"] is not None]
+        lens = sorted(set(n for _, n in singles))
+        ans = dict(zip(lens, ctx.model(["fmt-item bf %d" % n for n in lens], exe=exe))) if lens else {}
+        ans_bv = dict(zip(lens, ctx.model(["fmt-item bv %d" % n for n in lens], exe=exe))) if lens else {}
+        first = None
+        for r, n in singles:
+            # the mirror is run on an item of `n` bytes '0': compare outcome, number of bytes appended, and whether the last
+            # appended byte is a NUL (the terminator) or a byte of the item
+            body, _ = split_impl(r["impl"])
+            if body.startswith("ok s"):
+                res = bytes.fromhex(body[4:].split(" ", 1)[0])
+                got = "ok %d %s" % (len(res), "nul" if res[-1:] == b"\0" else "item")
+            else:
+                got = "panic"
+            exp = ans[n].split()
+            want = "ok %s %s" % (exp[1], "nul" if exp[2] == "0" else "item") if exp[0] == "ok" else ans[n]
+            item_info["compared"] += 1
+            key = str(n) if 250 <= n <= 260 else ("<250" if n < 250 else ">260")
+            item_info["lengths"][key] = item_info["lengths"].get(key, 0) + 1
+            if got != want and first is None:
+                first = (r["line"], n, ans[n], got)
+            if got != want:
+                item_info["diffs"] += 1
+        if first:
+            broken.append("correspondence item step (Lib/FormatC.bufferFormatItem) vs implementation: %d differing calls, first `%s`: item of %d bytes, mirror `%s`, implementation `%s`"
+                          % (item_info["diffs"], first[0][:120], first[1], first[2], first[3]))
+            ctx.broken.append(broken[-1])
+        if ans_bv != ans:
+            broken.append("item step of janet_formatbv and of janet_buffer_format differ (mirrors disagree on some length)")
+            ctx.broken.append(broken[-1])
     # ---- the arity family once more on the asan_debugstack variant (JANET_DEBUG: the fiber stack is reallocated to its exact
     # size on every change, so a read of argv[k] with k >= argc is outside the allocation and ASan reports it even when the
     # stale slot happens to hold a value of the accepted type).  Thorough tier, or VERIF_C17_DEBUGSTACK=1.
@@ -476,6 +520,11 @@ def _run(ctx, quick, broken, exe, janet, workdir):
                          "documentation_vs_code_arity": doc_vs_code, "on_asan_debugstack": dbg_info,
                          "rule": "function called through a first-class value with 0..min-1 arguments (prefix of a well-typed call) and with max+1; "
                                  "min/max from the usage string of JANET_CORE_FN; expected: an error whose message says arity"},
+        "format_item_boundary_family": {"calls": len(bd_cases), "item_step_mirror_vs_impl": item_info,
+                                        "rule": "one directive rendered to 253..258 bytes (MAX_ITEM 256; %f of exactly representable doubles, "
+                                                "the only kind that reaches it with two-digit width/precision) or to the longest rendering of its kind; "
+                                                "expected = python's exact rendering below 256 bytes, an error from 256 on; no NUL byte in any "
+                                                "format result that no argument contains"},
         "tested_only": "string/format / buffer/format: the subset %% %d %i %x %X %o %c %s (flags, width, precision) has a Lean definition (Lib/Format.lean) compared with the implementation; %f %e %g are compared with python % formatting only; %v %q %p %j etc. are not exercised. Conformance of every definition to the C code is by correspondence, not proof.",
     }
     return ctx.finish("proof", cov, assumptions=[
